@@ -91,8 +91,9 @@ class FaultRun(object):
     """
 
     def __init__(self, inst, opts, plan=(), time_limit=None, mode='eb', choices=(), salt=0,
-                 steps_ms=(1,), warmup=False):
+                 steps_ms=(1,), warmup=False, threads=None):
         self.warmup = warmup
+        self.threads = threads
         self.inst, self.opts = inst, opts
         self.plan = list(plan)
         self.time_limit = time_limit
@@ -167,7 +168,7 @@ class FaultRun(object):
                 call_repo('get_results_long()', self.solver.get_results_long)
             with self.backend:
                 call_repo('solve()', self.solver.solve, msg=False, timeLimit=self.time_limit,
-                          threads=None, write=False)
+                          threads=self.threads, write=False)
             self.total_s = None
             m = self.solver.model
             try:
